@@ -59,6 +59,92 @@ assert all(temper(untemper(v)) == v for v in (0, 1, 0xffffffff, 0x80000000, 0x12
 def dbits(x):
     return "%016x" % struct.unpack("<Q", struct.pack("<d", x))[0]
 
+def float_facts_selftest(nsamp=4000, seed=12345):
+    """Every field of `FloatFacts F B` (lean/EaselModel/Random/Deal64Abs.lean), the assumption list of the abstract-carrier
+    theorem `rand64_deal_spec_abstract`, evaluated on IEEE binary64 (Python float = C double, same libm exp/log) with
+    B = 2^53 over special values (+-0, +-inf, NaN, subnormals, 1 -+ ulp, 2^53 ...) and random operands.
+    Returns (number of evaluated instances, list of counter-examples).  A counter-example means an assumption of the
+    theorem is false for the arithmetic the C code runs on: reported as a failed obligation."""
+    import math, random
+    rng = random.Random(seed)
+    B = 2 ** 53
+    inf, nan = float("inf"), float("nan")
+    def clog(x):
+        if x != x or x < 0: return nan
+        if x == 0: return -inf
+        return math.log(x) if x != inf else inf
+    def cexp(x):
+        try: return math.exp(x)
+        except OverflowError: return inf
+    def I(k): return float(k)
+    def dbl(w): return float(w >> 11) * (1.0 / 9007199254740992.0)
+    def dblo(w): return (float(w >> 12) + 0.5) * (1.0 / 4503599627370496.0)
+    def fl(x): return int(math.floor(x))
+    def rbits(): return struct.unpack("<d", struct.pack("<Q", rng.getrandbits(64)))[0]
+    special = [0.0, -0.0, 1.0, -1.0, inf, -inf, nan, 5e-324, -5e-324, 2.2250738585072014e-308, 1 - 2.0 ** -53, 1 + 2.0 ** -52,
+               0.5, 2.0 ** -53, 2.0 ** 53, 2.0 ** 53 - 1, 2.0 ** 52, 1e308, -1e308, 1e-300, 3.0, 27.0, 1 - 2.0 ** -52, 2.0 ** -1074]
+    def val():
+        r = rng.random()
+        if r < 0.35: return rng.choice(special)
+        if r < 0.6: return rbits()
+        if r < 0.85: return rng.choice([rng.random(), 1 - rng.random() * 2.0 ** -rng.randrange(1, 53), rng.random() * 2.0 ** -rng.randrange(1, 1070)])
+        return float(rng.randrange(-B, B + 1)) if rng.random() < 0.5 else rng.uniform(-10, 10)
+    def unit(): return rng.choice([0.0, -0.0, 1.0, 1 - 2.0 ** -53, 2.0 ** -53, 5e-324, 0.5, rng.random(), 1 - rng.random() * 2.0 ** -rng.randrange(1, 53), dbl(rng.getrandbits(64))])
+    def ubelow(): return rng.choice([0.0, -0.0, 1 - 2.0 ** -53, 2.0 ** -53, 5e-324, 0.5, rng.random(), 1 - 2.0 ** -rng.randrange(1, 54), dbl(rng.getrandbits(64))])
+    def pint(lo=1): return rng.choice([lo, lo + 1, 2, 3, 7, 13, 27, 2 ** 31, 2 ** 52, B - 1, B, 2 ** rng.randrange(0, 54), rng.randrange(lo, B + 1), rng.randrange(lo, 1000)])
+    def sint():
+        k = rng.choice([0, 1, -1, B, -B, B - 1, rng.randrange(-B, B + 1), rng.randrange(-1000, 1000)])
+        return k
+    bad, count = [], 0
+    def chk(name, prem, concl, *args):
+        nonlocal count
+        if prem:
+            count += 1
+            if not concl and len(bad) < 5: bad.append((name, args))
+    one, z = 1.0, 0.0
+    for _ in range(nsamp):
+        a, b, c = val(), val(), val()
+        chk("le_trans", a <= b and b <= c, a <= c, a, b, c)
+        chk("lt_le", a < b, a <= b, a, b)
+        chk("lt_lt_le_absurd", a < b and b < c, not (c <= a), a, b, c)
+        i, j = sint(), sint()
+        if -B <= i + j <= B: chk("add_int", True, struct.pack("<d", I(i) + I(j)) == struct.pack("<d", I(i + j)), i, j)
+        if -B <= i - j <= B: chk("sub_int", True, struct.pack("<d", I(i) - I(j)) == struct.pack("<d", I(i - j)), i, j)
+        k = pint(0)
+        chk("round_int", True, float(math.floor(I(k) + 0.5)) == I(k) if k < 2 ** 52 else I(k) == float(int(I(k))), k)
+        w = rng.choice([0, 1, (1 << 64) - 1, (1 << 11) - 1, 1 << 11, (1 << 12) - 1, 1 << 12, rng.getrandbits(64)])
+        chk("dbl_unit", True, z <= dbl(w) and dbl(w) < one, w)
+        chk("dblOpen_unit", True, z < dblo(w) and dblo(w) < one, w)
+        u = unit()
+        chk("log_nonpos", z <= u and u <= one, clog(u) <= z, u)
+        x = rng.choice([a, -abs(a), clog(u), -unit(), -0.0, -inf, -5e-324])
+        chk("exp_unit", x <= z, z <= cexp(x) and cexp(x) <= one, x)
+        chk("exp_nonneg", cexp(a) <= c or cexp(a) <= cexp(a), z <= cexp(a), a)
+        kk = pint(1)
+        chk("mul_inv_nonpos", x <= z, (one / I(kk)) * x <= z, kk, x)
+        chk("one_sub_unit", z <= u and u <= one, z <= (-u) + one and (-u) + one <= one, u)
+        n = pint(1)
+        chk("mul_int_unit", z <= u and u <= one, z <= I(n) * u and I(n) * u <= I(n), n, u)
+        ub = ubelow()
+        chk("mul_int_lt", z <= ub and ub < one, z <= I(n) * ub and I(n) * ub < I(n), n, ub)
+        t = pint(0)
+        chk("mul_unit_int", z <= u and u <= one, z <= u * I(t) and u * I(t) <= I(t), u, t)
+        p, q = rng.choice([abs(a), u, inf, 0.0, cexp(b)]), rng.choice([abs(b), u, inf, 0.0, -0.0])
+        chk("mul_nonneg", z <= p and z <= q and (p * q <= c or p * q <= p * q), z <= p * q, p, q)
+        chk("mul_left_notnan", a * b <= c or a * b <= a * b, a <= a, a, b)
+        chk("neg_antitone", a <= b, -b <= -a, a, b)
+        chk("div_mono", a <= b, a / I(n) <= b / I(n), n, a, b)
+        chk("div_neg_self", True, I(-1) <= (-I(n)) / I(n), n)
+        chk("div_int_nonneg", True, z <= I(t) / I(n), t, n)
+        t2 = rng.choice([0, 1, n, max(0, n - 1), rng.randrange(0, n + 1)])
+        chk("div_int_le_one", True, I(t2) / I(n) <= one, t2, n)
+        chk("div_zero_nonpos", True, I(0) / I(n) <= z, n)
+        chk("add_one_mono", a <= b, a + one <= b + one, a, b)
+        xr = rng.choice([I(n) * u, I(n) * ub, I(n), 0.0, -0.0, I(n) * (1 - 2.0 ** -53), I(n) - 1 if n > 1 else 0.5, rng.random() * I(n)])
+        if z <= xr and xr <= I(n): chk("floor_range", True, 0 <= fl(xr) <= n, xr, n)
+        if z <= xr and xr < I(n): chk("floor_lt", True, 0 <= fl(xr) < n, xr, n)
+    return count, bad
+
 class C09(Prop):
     id = "C09"
     lean_modules = ["EaselModel.Props.C09"]
@@ -70,7 +156,9 @@ class C09(Prop):
         "random_unit", "rand64_double_ranges", "deal_spec", "dchoose_nonzero",
         "rand64_deal_spec", "rand64_deal_spec_real", "rand64_deal_vprime_one_clamped", "rand64_deal_first_accepted",
         "uniformPositive_pos", "uniform_positive_unit", "gaussian_in_bounds", "gauss_table_sizes", "gamma_positive", "dirichlet_simplex",
-        "mem_bytes", "floatstring_fits", "samplers_replay", "mt_constants_published")] + ["EaselModel.MTP.fill_correct", "EaselModel.MTP.stream_eq_spec"]
+        "mem_bytes", "floatstring_fits", "samplers_replay", "mt_constants_published",
+        "seed0_create_replays", "seed0_init_replays", "rand64_init_replays", "dump_in_bounds", "dump_in_bounds_reinit", "dump_prefix_out_of_bounds",
+        "rand64_deal_spec_abstract", "rand64_deal_prefix_out_of_range", "rand64_deal_prefix_defect_carrier")] + ["EaselModel.MTP.fill_correct", "EaselModel.MTP.stream_eq_spec"]
     claimed = True
     technique = "Lean 4 proof (generic in-place-refill = recurrence theorem, stream invariant by induction, roll/deal arithmetic) + exact differential correspondence of the executable model with the ASan/UBSan-built C generators"
     level_text = ("Theorems for all seeds and all stream positions: the model's MT19937 / MT19937-64 / LCG output equals the reference recurrence across any number of refills; "
@@ -94,7 +182,15 @@ class C09(Prop):
     def generated(self, ctx):
         # Gaussian tables and the integer literals of the MT / LCG routines, regenerated from the working tree
         g, self._gtabs, self._lits = rand_tables.generate(ctx)
+        # the assumption list of the abstract-carrier Deal theorem, evaluated on the arithmetic the C code runs on
+        self._ff_count, bad = float_facts_selftest()
+        if bad:
+            raise RuntimeError("FloatFacts (Deal64Abs.lean) is false on binary64: %r" % (bad,))
         return g
+
+    def extra_evidence(self, ctx):
+        return {"float_facts_on_binary64": {"instances_evaluated": getattr(self, "_ff_count", 0), "counterexamples": 0,
+                                           "what": "every field of FloatFacts (assumptions of rand64_deal_spec_abstract) sampled on IEEE binary64 incl. +-0, +-inf, NaN, subnormals, B=2^53"}}
 
     def corpus(self, ctx):
         return [dict(c, sticky=1) for c in self._corpus()]
@@ -148,6 +244,18 @@ class C09(Prop):
                      "pokeraw64 w=%d off=1" % untemper64(18276914810643972096), "deal64 m=2 n=27", "u64 k=2"]},
             {"name": "deal64-methods", "ops": ["new64 seed=42", "deal64 m=5 n=1000000", "deal64 m=50 n=100", "deal64 m=1 n=1", "deal64 m=100 n=100",
                      "deal64 m=20 n=1099511627776", "pokeraw64 w=0", "deal64 m=3 n=1000", "pokeraw64 w=%d" % untemper64(M64), "deal64 m=1 n=7", "u64 k=3"]},
+            # regression for fix 6211f3f: Dump when the table is exactly used up (mti == 624) read mt[624]
+            {"name": "dump-exhausted", "ops": ["new32 seed=42", "dump32", "u32 k=624", "pos32", "dump32", "u32 k=1", "dump32", "u32 k=623", "dump32", "init seed=42", "dump32"]},
+            {"name": "dump-fast", "ops": ["newfast seed=1", "dump32", "u32 k=3", "dump32", "pos32"]},
+            {"name": "dump64", "ops": ["new64 seed=42", "dump64", "u64 k=312", "pos64", "dump64", "u64 k=1", "dump64", "init64 seed=18446744073709551615", "dump64"]},
+            # seed 0 under a controlled environment: Create / CreateFast / CreateTimeseeded / Init, 32 and 64 bit
+            {"name": "seed0-env", "ops": ["env t=1790000000 p=4242 c=1234", "new32 seed=0", "u32 k=3", "dump32", "newfast seed=0", "u32 k=3", "dump32",
+                     "newtime", "u32 k=625", "init seed=0", "random", "new64 seed=0", "u64 k=2", "init64 seed=0", "u64 k=313", "dump64",
+                     "env t=0 p=0 c=0", "new32 seed=0", "new64 seed=0", "newfast seed=0", "u32 k=1",
+                     "env t=4294967295 p=4294967295 c=4294967295", "newtime", "new64 seed=0", "roll64 n=7", "init seed=4294967295", "u32 k=2"]},
+            {"name": "seeds-boundary", "ops": ["new32 seed=4294967295", "u32 k=625", "gauss mean=%s sd=%s" % (dbits(0.0), dbits(1.0)), "init seed=4294967295", "u32 k=1",
+                     "new64 seed=4294967296", "u64 k=313", "new64 seed=4294967295", "u64 k=2", "new64 seed=18446744073709551615", "deal64 m=3 n=100", "pos64",
+                     "init64 seed=4294967297", "dblopen", "int64"]},
             {"name": "mt64", "ops": ["new64 seed=42", "u64 k=1", "u64 k=311", "u64 k=1", "u64 k=1000", "roll64 n=18446744073709551615", "dbl64", "dblclosed", "dblopen"]},
         ]
 
@@ -158,24 +266,40 @@ class C09(Prop):
 
     def cases(self, ctx):
         rng = ctx.rng
-        n = 600 if ctx.tier == "quick" else 6000
+        n = 1200 if ctx.tier == "quick" else 8000
         seeds = self.seeds32(rng)
         out = []
         for c in range(n):
             ops = []
             seed = rng.choice(seeds) if rng.random() < 0.5 else rng.randrange(1, 1 << 32)
             which = rng.random()
+            env = rng.random() < 0.3     # controlled time()/getpid()/clock(): seed 0 becomes a driven input
+            if env:
+                ops.append("env t=%d p=%d c=%d" % tuple(rng.choice([0, 1, 0xffffffff, rng.randrange(1 << 32), rng.randrange(1 << 32)]) for _ in range(3)))
+                if rng.random() < 0.6: seed = 0
+            nst = len(ops) + 1
             if which < 0.6:
-                ops.append(("new32" if rng.random() < 0.85 else "newfast") + " seed=%d" % seed)
+                first = "new32" if rng.random() < 0.8 else "newfast"
+                if env and rng.random() < 0.2: ops.append("newtime"); first = "new32"
+                else: ops.append(first + " seed=%d" % seed)
+                mers = first == "new32"
                 for _ in range(rng.randrange(1, 14)):
                     r = rng.random()
-                    if rng.random() < 0.22:
-                        ops += self._sampler_ops(rng, ops[0].startswith("new32"))
+                    q = rng.random()
+                    if q < 0.22:
+                        ops += self._sampler_ops(rng, mers)
+                        if rng.random() < 0.5: ops.append("pos32")
+                    elif q < 0.27:
+                        ops.append(rng.choice(["dump32", "pos32"]))
+                    elif q < 0.30:      # Create vs CreateFast vs CreateTimeseeded in one history
+                        k2 = rng.choice(["new32", "newfast"] + (["newtime"] if env else []))
+                        ops.append(k2 if k2 == "newtime" else k2 + " seed=%d" % rng.choice([seed, seed, rng.randrange(1, 1 << 32)] + ([0] if env else [])))
+                        mers = k2 != "newfast"
                     elif r < 0.35:
                         ops.append("u32 k=%d" % rng.choice([1, 2, 5, 100, 623, 624, 625, 1248, rng.randrange(1, 3000), rng.randrange(1, 100000 if ctx.tier != "quick" or c < 10 else 5000)]))
                     elif r < 0.5:
                         nn = rng.choice([1, 2, 3, 6, 7, 10, 19, 255, 256, 389, 1000, 65537, 2**31 - 1, 2**30 + 1, 1898087491, rng.randrange(1, 2**31)])
-                        if ops[0].startswith("new32") and rng.random() < 0.6:   # roll with the next raw word on an accept/reject boundary
+                        if mers and rng.random() < 0.6:   # roll with the next raw word on an accept/reject boundary
                             ops.append("pokeraw w=%d" % untemper(rng.choice(roll_boundary_words(nn, 32, rng))))
                         ops.append("roll n=%d" % nn)
                     elif r < 0.6:
@@ -185,7 +309,7 @@ class C09(Prop):
                     elif r < 0.78:
                         nn = rng.choice([1, 2, 5, 10, 100, rng.randrange(1, 3000)])
                         ops.append("deal m=%d n=%d" % (rng.choice([0, 1, nn, nn // 2, rng.randrange(0, nn + 1)]), nn))
-                    elif r < 0.84 and ops[0].startswith("new32"):
+                    elif r < 0.84 and mers:
                         # categorical choice at a forced boundary roll: float / double vectors from normalised counts
                         # (sums slightly off 1), zeros anywhere incl. trailing; roll = 0, max, or next to a cumulative sum
                         k = rng.randrange(1, 9)
@@ -218,13 +342,20 @@ class C09(Prop):
                             for x in p: a += x; cdf.append(a)
                             ops.append("dchoosecdf p=" + ",".join(dbits(x) for x in cdf))
                     else:
-                        ops.append("init seed=%d" % (seed if rng.random() < 0.5 else rng.randrange(1, 1 << 32)))
+                        ops.append("init seed=%d" % (seed if rng.random() < 0.5 else rng.choice([rng.randrange(1, 1 << 32), 0xffffffff] + ([0] if env else []))))
+                ops.append("pos32")
             else:
-                s64 = rng.choice([1, 2, 42, 2**63, 2**64 - 1, 2**32, 5489, rng.randrange(1, 1 << 64), rng.randrange(1, 1 << 64)])
+                s64 = rng.choice([1, 2, 42, 2**63, 2**64 - 1, 2**32, 2**32 - 1, 2**32 + 1, 5489, rng.randrange(1 << 32, 1 << 64), rng.randrange(1, 1 << 64)])
+                if env and seed == 0: s64 = 0
                 ops.append("new64 seed=%d" % s64)
                 for _ in range(rng.randrange(1, 12)):
                     r = rng.random()
-                    if r < 0.4:
+                    q = rng.random()
+                    if q < 0.06:
+                        ops.append(rng.choice(["dump64", "pos64"]))
+                    elif q < 0.14:    # esl_rand64_Init on a used generator: same seed (replay), another seed, seed 0
+                        ops.append("init64 seed=%d" % rng.choice([s64, s64, rng.randrange(1 << 32, 1 << 64), 2**64 - 1] + ([0] if env else [])))
+                    elif r < 0.4:
                         ops.append("u64 k=%d" % rng.choice([1, 2, 311, 312, 313, 624, rng.randrange(1, 3000), rng.randrange(1, 50000 if ctx.tier != "quick" or c < 10 else 3000)]))
                     elif r < 0.6:
                         nn = rng.choice([1, 2, 3, 6, 10, 2**32, 2**63, 2**64 - 1, 2**63 + 1, rng.randrange(1, 2**64), rng.randrange(1, 2**20)])
@@ -233,12 +364,14 @@ class C09(Prop):
                         ops.append("roll64 n=%d" % nn)
                     elif r < 0.68:
                         ops += self._deal64_ops(rng)
+                        ops.append("pos64")        # generator consumption of the deal, exactly
                     elif r < 0.72: ops.append("int64")
                     elif r < 0.78: ops.append("dbl64")
                     elif r < 0.85: ops.append("dblclosed")
                     elif r < 0.95: ops.append("dblopen")
                     else: ops.append("new64 seed=%d" % s64)
-            out.append({"name": "gen%d" % c, "ops": ops, "sticky": 1})
+                ops.append("pos64")
+            out.append({"name": "gen%d" % c, "ops": ops, "sticky": nst})
         return out
 
     def _deal64_ops(self, rng):
@@ -255,6 +388,10 @@ class C09(Prop):
             nn = rng.choice([1, 2, 5, 14, 100, 1000, rng.randrange(1, 5000), rng.randrange(1, 10**6)])
             mm = rng.choice([1, 2, min(nn, 13), min(nn, 50), nn if nn < 3000 else 100, rng.randrange(1, min(nn, 2000) + 1)])
         mm = max(1, min(mm, nn))          # precondition of esl_rand64_Deal: 1 <= m <= n
+        # method D's slow path (taken when the squeeze test `Vprime <= 1.` fails, a few % of the skips) runs its y2 loop S ~ n/m
+        # times: esl_rand64_Deal(m=300, n=2^52) was observed in that loop with S = 1.8e12 (hours).  Cost, not range: outside
+        # the property (quantifier: n <= 10^4), so n/m stays <= 2e6 here unless m = 1 (no loop at all)
+        if mm >= 2 and nn > mm * 2000000: mm = 1
         ops = []
         pk = rng.random()
         if pk < 0.12:   ops.append("pokeraw64 w=%d" % untemper64(rng.choice([0, 1 << 11, (1 << 11) - 1])))          # u = 0, 2^-53, 0
@@ -309,8 +446,16 @@ class C09(Prop):
                     return Failure("monitor", "choice returned index %d of zero probability" % i)
             elif w[0].startswith("seedzero") and l != "ok nonzero replay":
                 return Failure("monitor", "seed 0: %s" % l)
-            elif w[0] in ("new32", "newfast", "new64", "init") and l != "ok seed=%s" % kv["seed"]:
-                return Failure("monitor", "seed %s reported as %s" % (kv["seed"], l))
+            elif w[0] in ("new32", "newfast", "new64", "init", "init64", "newtime"):
+                sd = kv.get("seed", "0")
+                if sd != "0" and l != "ok seed=%s" % sd:
+                    return Failure("monitor", "seed %s reported as %s" % (sd, l))
+                if sd == "0" and (not l.startswith("ok seed=") or int(l[8:]) == 0):
+                    return Failure("monitor", "seed 0 must select a non-zero seed that is reported back; got %s" % l)
+            elif w[0] in ("pos32", "pos64") and l.startswith("ok mti="):
+                lim = 624 if w[0] == "pos32" else 312
+                if not (0 <= int(l[7:]) <= lim):
+                    return Failure("monitor", "table position %s outside 0..%d" % (l[7:], lim))
         return None
 
 SPEC = C09()
